@@ -27,6 +27,9 @@ BIN_B = ["&&", "||", "^"]
 # the value at its own position in the left-to-right order, whatever later (or earlier) siblings do to the variable.
 IV_LEAVES = [("v",), ("u",)]
 BV_LEAVES = [("vb",), ("ub",)]
+# constant leaves: literals next to side-effecting siblings (the constant folder may not drop or reorder the siblings)
+IC_LEAVES = [("k2",), ("k0",)]
+BC_LEAVES = [("ct",), ("cf",)]
 LEAVES = {"I": I_LEAVES, "B": B_LEAVES, "O": O_LEAVES}
 
 
@@ -47,7 +50,7 @@ class leafset:
 
 def ty(n):
     k = n[0]
-    if k in ("bt", "bf", "vb", "ub", "&&", "||", "^", "!") or k in CMP:
+    if k in ("bt", "bf", "vb", "ub", "ct", "cf", "&&", "||", "^", "!") or k in CMP:
         return "B"
     if k in ("o", "on"):
         return "O"
@@ -210,6 +213,14 @@ class Builder:
             return ("call", V("bv"), [("int", self.nid()), ("bool", True)])
         if k == "bf":
             return ("call", V("bv"), [("int", self.nid()), ("bool", False)])
+        if k == "k2":
+            return ("int", 2)
+        if k == "k0":
+            return ("int", 0)
+        if k == "ct":
+            return ("bool", True)
+        if k == "cf":
+            return ("bool", False)
         if k == "v":
             return V("gx")
         if k == "u":
@@ -392,7 +403,7 @@ class C15(Check):
     rule = ("typed expression trees whose leaves are logging calls t(i) (int), r(i) (recursive: re-enters the same code one frame deeper and "
             "evaluates a binary expression there), b(i) (bool true/false), o(i) (int? present/nil), and - in the variable-leaf layers - bare reads of a "
             "module variable (int gx / bool gb) next to calls u(i) / ub(i) that log, modify that variable and return it, so that a read "
-            "performed too late or too early is visible; nodes: every binary operator of the language (+ - * / % & | xor << >> < <= > >= == != && || ^), string concatenation, "
+            "performed too late or too early is visible, and - in the constant-leaf layers - literals (true, false, 2, 0) next to logging siblings; nodes: every binary operator of the language (+ - * / % & | xor << >> < <= > >= == != && || ^), string concatenation, "
             " f2..f4(E,..), obj.m(E,E), list literal [E,E,E], list literal + index, map literal {E:E,E:E}, B&&B, B||B, !B, (O) or E; "
             "all trees of depth <=1, depth 2 with every child arbitrary for unary/binary nodes, depths 2-4 by rule 1 (one arbitrary child, "
             "siblings over all leaves); statement contexts print / assignment / if condition / while condition / call argument / return.")
@@ -420,6 +431,13 @@ class C15(Check):
             vm = {}
             v2 = [n for t in ("I", "B") for n in trees_rule1(2, t, vm) if tdepth(n) == 2]
             v3 = [n for t in ("I", "B") for n in trees_spine(3, t, {}) if tdepth(n) == 3]
+        with leafset(I=IC_LEAVES + [("t",)], B=BC_LEAVES + [("bt",)]):
+            k1 = [n for n in depth1() if any(x in ("k2", "k0", "ct", "cf") for x in _ops(n))]
+        with leafset(I=[("t",), ("k2",)], B=[("bt",), ("bf",), ("ct",), ("cf",)]):
+            km = {}
+            k2_ = [n for t in ("I", "B") for n in trees_rule1(2, t, km) if tdepth(n) == 2 and any(x in ("k2", "ct", "cf") for x in _ops(n))]
+        ls.append(("Lk0-depth1-constant-leaves-all-contexts", [(n, c) for n in k1 for c in ctxs]))
+        ls.append(("Lk1-depth2-rule1-constant-leaves", [(n, c) for n in k2_ for c in (("print",) if tier == "quick" else ("print", "assign", "if"))]))
         ls.append(("Lv0-depth1-variable+mutator-leaves-all-contexts", [(n, c) for n in v1 for c in ctxs]))
         if tier == "quick":
             ls.append(("Lv1-depth2-rule1-variable+mutator-leaves", [(n, "print") for n in v2]))
@@ -541,7 +559,7 @@ class C15(Check):
 
     def finish(self, stats, tier):
         errs = []
-        for o in ALL_OPS + ["v", "u", "vb", "ub"]:
+        for o in ALL_OPS + ["v", "u", "vb", "ub", "k2", "ct", "cf"]:
             if not stats["tags"].get(f"op{o}"):
                 errs.append(f"vacuity: node kind {o} never executed")
         if not stats["tags"].get("ctx-print~minparen"):
